@@ -315,6 +315,8 @@ def det_classes():
           ("RegisterFile", lambda: RegisterFile(Bits8, 4, 2, 1))]
   out += [("SetParam", lambda: D.SetParam({"add", "sub", "mul", "div", "very_long_operation_name", "shift", "rotate"})),
           ("FrozenSetParam", lambda: D.SetParam(frozenset(["add", "mul", "xor", "nand", "very_long_operation_name"]))),
+          ("NamedTupleParam", lambda: D.RecordParam(D.OpsTuple({"add", "sub", "mul", "div", "very_long_operation_name", "shift"}, 3))),
+          ("DataclassParam", lambda: D.RecordParam(D.OpsData(frozenset(["add", "mul", "xor", "nand", "very_long_operation_name"])))),
           ("FnListParam", lambda: D.FnListParam([D.double, D.triple])), ("FnTupleDictParam", lambda: D.FnListParam((D.double,), {"f": D.triple}))]
   out += [("FnParam", lambda: D.FnParam(D.double)), ("ObjParam", lambda: D.ObjParam(D.PlainCfg(3))), ("ConstStructs", D.ConstStructs), ("ConstLists", D.ConstLists)]
   cat = D.catalogue()
